@@ -817,7 +817,10 @@ pub fn process_request(input: &str, dbs: &Arc<Databases>, client: &mut Client) -
         | Request::Increment { .. }
         | Request::ReplicateSet { .. }
         | Request::ReplicateRemove { .. }
-        | Request::ReplicateIncrement { .. } => Some(lock_replication_order(&dbs)),
+        | Request::ReplicateIncrement { .. }
+        | Request::CreateUser { .. }
+        | Request::SetPermissions { .. }
+        | Request::Resolve { .. } => Some(lock_replication_order(&dbs)),
         _ => None,
     };
     let result = process_request_obj(&request, &dbs, client);
